@@ -282,10 +282,15 @@ class Adder(IMultiplier):
                output_quantizer: quantizer_impl.IQuantizer):
     super().__init__(weight_quantizer, input_quantizer,
                      output_quantizer)
-    self.output.bits = max(self.input.bits, self.weights.bits) + 1
+    self.output.is_signed = self.input.is_signed | self.weights.is_signed
+    # the exponents add: one more non-sign (exponent) bit than the wider
+    # operand, plus the sign bit of the result
+    self.output.bits = max(
+        self.input.bits - int(self.input.is_signed),
+        self.weights.bits - int(self.weights.is_signed)) + 1 + int(
+            self.output.is_signed)
     self.output.int_bits = max(self.input.int_bits,
                                self.weights.int_bits) + 1
-    self.output.is_signed = self.input.is_signed | self.weights.is_signed
     assert_neither_input_and_weights_is_floating_point(self)
     self.output.is_floating_point = False
     self.output.is_po2 = 1
